@@ -31,6 +31,8 @@ pub struct PartsDomain {
     pub variants: Vec<Variant>,
     /// extension strings (without leading '-') with their parsed map and model
     pub exts: Vec<(String, ExtensionsMap, MLocale)>,
+    /// well-formed canonical extension strings that the library refuses to parse
+    pub rejected_exts: Vec<(String, String)>,
 }
 
 pub fn parts_domain(all_ext_shapes: bool) -> PartsDomain {
@@ -67,6 +69,7 @@ pub fn parts_domain(all_ext_shapes: bool) -> PartsDomain {
     }
     let variants = FP_VARIANTS.iter().map(|v| Variant::from_str(v).expect("variant")).collect();
     let mut exts = vec![];
+    let mut rejected: Vec<(String, String)> = vec![];
     let us: Vec<&str> = if all_ext_shapes { U_SHAPES.to_vec() } else { vec!["", "u-abc-ca-buddhist"] };
     let ts: Vec<&str> = if all_ext_shapes { T_SHAPES.to_vec() } else { vec!["", "t-de-h0-hybrid"] };
     let xs: Vec<&str> = if all_ext_shapes { X_SHAPES.to_vec() } else { vec!["", "x-zz-a"] };
@@ -75,7 +78,13 @@ pub fn parts_domain(all_ext_shapes: bool) -> PartsDomain {
             for x in &xs {
                 let parts: Vec<&str> = [*t, *u, *x].iter().copied().filter(|p| !p.is_empty()).collect();
                 let s = parts.join("-");
-                let em = ExtensionsMap::from_str(&s).unwrap_or_else(|e| panic!("extension shape {:?} must parse: {:?}", s, e));
+                let em = match guard(|| ExtensionsMap::from_str(&s)) {
+                    Out::Ok(em) => em,
+                    o => {
+                        rejected.push((s.clone(), o.brief(|x| x.to_string())));
+                        continue;
+                    }
+                };
                 let txt = if s.is_empty() { "und".to_string() } else { format!("und-{}", s) };
                 let toks = rm::split_tokens(txt.as_bytes());
                 let m = rm::run_locale(&toks, rm::Mode::StrictBareTkey).expect("shape is well-formed").value;
@@ -83,7 +92,7 @@ pub fn parts_domain(all_ext_shapes: bool) -> PartsDomain {
             }
         }
     }
-    PartsDomain { ids, lists, variants, exts }
+    PartsDomain { ids, lists, variants, exts, rejected_exts: rejected }
 }
 
 impl PartsDomain {
@@ -224,6 +233,10 @@ pub fn replay_parts(text: &str, coll: &Collector) {
 fn run_parts(ctx: &Ctx, rep: &mut Report) {
     let d = parts_domain(true);
     let coll = std::mem::take(&mut rep.collector);
+    for (i, (s, why)) in d.rejected_exts.iter().enumerate() {
+        // the canonical serialisation of an extension map that the mutators can build
+        coll.push(i as u64, Violation { sub: "c05.extensions", class: "ExtensionsMap::from_str rejects a canonical extension string".into(), case: Case::Input(format!("und-{}", s).into_bytes()), expected: format!("Ok({})", s), observed: why.clone() });
+    }
     let st = par_range(ctx, "E4.from_parts", d.size(), 1 << 10, &|idx, l| check_parts(&d, idx, l, &coll));
     rep.collector = coll;
     rep.add_space(
@@ -352,7 +365,7 @@ pub fn run_c01(ctx: &Ctx) -> Report {
     }
     rep.collector = coll;
     // (e) no public call panics on any value reachable in the E3 harnesses
-    let sum = run_harnesses(ctx, if ctx.quick() { &["H-u", "H-t", "H-x", "H-id"] } else { &[] }, &["c01."], &mut rep, false);
+    let sum = run_harnesses(ctx, history::std_set(ctx), &["c01."], &mut rep, false);
     fill_report(&mut rep, &sum, "C01: every mutator/getter/serialiser call on every reachable value returns");
     keep_only(&mut rep, &["c01."]);
     rep.rule = "Totality. (a) E1 token trees + E2 skeletons and edit neighbourhoods through 27 text-accepting entry points of both crates (parsers, FromStr, canonicalize, try_from_iter, ExtensionsMap, the four subtag constructors); (b) every byte string of length <= 2 and boundary-class strings to length 9 as the argument of 15 getter/setter functions on three receivers; (c) every (language, script, region) of the CLDR universe through maximize, minimize and character_direction; (d) a fixed list of large inputs under a 5 s per-case watchdog; (e) every call made in the E3 harnesses. The oracle is: the call returns (Ok or Err), no panic, no hang, child exit status 0. distinct_nontrivial = inputs of the E1/E2 trees on which no entry point panicked (distinct by construction).".into();
@@ -372,7 +385,7 @@ pub fn run_c04(ctx: &Ctx) -> Report {
         rep.engine_failures.push("vacuity guard: no accepted inputs".into());
     }
     run_parts(ctx, &mut rep);
-    let sum = run_harnesses(ctx, &[], &["c04."], &mut rep, false);
+    let sum = run_harnesses(ctx, history::std_set(ctx), &["c04."], &mut rep, false);
     fill_report(&mut rep, &sum, "C04: to_string of every reachable value");
     keep_only(&mut rep, &["c04."]);
     rep.rule = "Three routes to a value. Parse route: every accepted input of the E1 token trees and E2 skeleton/edit neighbourhoods; from_parts route: the complete product 24 ids x 781 variant lists x 480 extension shapes; mutation route: every state of the five E3 harnesses (explored to exhaustion). On each value to_string() must equal the independent canonicaliser applied to the model of the value, must be accepted by the independent strict recogniser as its own canonical form (charset, case, order, no 'true', nothing for empty extensions), canonicalize(s) must equal it and must not be longer than s. distinct_nontrivial = accepted inputs of the trees + from_parts values + distinct model values of E3.".into();
@@ -483,7 +496,7 @@ pub fn run_c05(ctx: &Ctx) -> Report {
     }
     run_parts(ctx, &mut rep);
     subtag_roundtrips(ctx, &mut rep);
-    let sum = run_harnesses(ctx, &[], &["c05."], &mut rep, false);
+    let sum = run_harnesses(ctx, history::std_set(ctx), &["c05."], &mut rep, false);
     fill_report(&mut rep, &sum, "C05: parse(to_string(x)) == x on every reachable value");
     keep_only(&mut rep, &["c05."]);
     rep.rule = "parse(x.to_string()) == x with the library's own equality, on every value of three routes: every accepted input of the E1/E2 spaces (Locale, LanguageIdentifier, ExtensionsMap; canonicalize idempotent), the complete from_parts product (24 ids x 781 variant lists x 480 extension shapes), every state of the five E3 harnesses; and on every Script (26^4 x 16 case masks), every Region, every 2-3 letter Language, and 5-8 letter languages / variants over reduced alphabets. No reference model is involved. distinct_nontrivial = accepted tree inputs + product values + valid subtags + distinct E3 model values.".into();
@@ -610,7 +623,7 @@ pub fn run_c17(ctx: &Ctx) -> Report {
         rep.evaluations += total;
         rep.collector = coll;
     }
-    let sum = run_harnesses(ctx, &[], &["c17."], &mut rep, false);
+    let sum = run_harnesses(ctx, history::std_set(ctx), &["c17."], &mut rep, false);
     fill_report(&mut rep, &sum, "C17: from_parts(into_parts(x)) == x on every reachable value");
     keep_only(&mut rep, &["c17."]);
     rep.rule = "from_parts(into_parts(x)) == x (Locale: extension string re-parsed with ExtensionsMap::from_str) on every accepted input of the E1/E2 spaces, every value of the from_parts product (where it must also equal parsing the joined string, for every order/duplication of up to 4 variants) and every state of the E3 harnesses; integer form -> from_raw_unchecked -> equal subtag with intact text on every valid subtag of the C15 byte-string spaces; injectivity of the integer form by sorting the integers of complete subtag domains. distinct_nontrivial = accepted tree inputs + product values + distinct E3 model values.".into();
@@ -715,7 +728,7 @@ pub fn replay_vpair(text: &str, coll: &Collector) {
 pub fn run_c12(ctx: &Ctx) -> Report {
     let mut rep = Report::new();
     // route 1: mutation histories (also fills the route-independence table: c12.route)
-    let sum = run_harnesses(ctx, &[], &["c12."], &mut rep, true);
+    let sum = run_harnesses(ctx, history::std_set(ctx), &["c12."], &mut rep, true);
     fill_report(&mut rep, &sum, "C12: route independence (the same model value reached with two representations is a violation) and per-state ==/hash/cmp/&str checks");
     // the value set R, keyed by the *structural* Debug text so that nothing is merged through
     // the library's own Eq/Hash
